@@ -141,6 +141,42 @@ func ProfileFor(prop string) Profile {
 		p.WSet = 50
 		p.WStabilize = 36
 		p.WAddRemove = 0
+	case "readd":
+		// cutoff nodes as MapN inputs, removed and added again: a cutoff that re-enters the graph
+		// holding its retained value cuts off on its first recompute and queues nobody
+		p.Prefix = []Op{
+			{K: "NewVar", V: 3}, {K: "NewCutoff", Cut: "CEq", A: 0}, {K: "NewVar", V: 1},
+			{K: "NewMapN", FN: "WSum", Ins: []int{2, 1}}, {K: "NewCutoff", Cut: "CEq", A: 2}, {K: "NewCutoff", Cut: "CParity", A: 0},
+			{K: "Observe", A: 3}, {K: "Stabilize"},
+		}
+		p.Ops = 30
+		p.WNew = 3
+		p.WBind = 0
+		p.WObserve = 2
+		p.WUnobserve = 1
+		p.WSet = 18
+		p.WStabilize = 30
+		p.WAddRemove = 46
+	case "fanout":
+		// hubs with one and with six observed dependents of one height, and a chain n0..n3 taller
+		// than the hubs: MapN.AddInput(hub, chain node) raises the hub and all its dependents at once
+		p.Prefix = []Op{
+			{K: "NewVar", V: 1}, {K: "NewMap", F1: Fn1{1, 1}, A: 0}, {K: "NewMap", F1: Fn1{1, 2}, A: 1}, {K: "NewMap", F1: Fn1{2, 1}, A: 2},
+			{K: "NewVar", V: 2}, {K: "NewMapN", FN: "Sum", Ins: []int{4}}, {K: "NewMap", F1: Fn1{1, 3}, A: 5},
+			{K: "NewMapN", FN: "Sum", Ins: []int{4}},
+			{K: "NewMap", F1: Fn1{1, 0}, A: 7}, {K: "NewMap", F1: Fn1{1, 1}, A: 7}, {K: "NewMap", F1: Fn1{1, 2}, A: 7},
+			{K: "NewMap", F1: Fn1{1, 3}, A: 7}, {K: "NewMap", F1: Fn1{1, 4}, A: 7}, {K: "NewMap", F1: Fn1{1, 5}, A: 7},
+			{K: "Observe", A: 6}, {K: "Observe", A: 8}, {K: "Observe", A: 9}, {K: "Observe", A: 10}, {K: "Observe", A: 11},
+			{K: "Observe", A: 12}, {K: "Observe", A: 13}, {K: "Stabilize"},
+		}
+		p.Ops = 46
+		p.WNew = 4
+		p.WBind = 0
+		p.WObserve = 2
+		p.WUnobserve = 1
+		p.WSet = 15
+		p.WStabilize = 25
+		p.WAddRemove = 53
 	case "deadobs":
 		// like inner, and a share of the Observe operations goes to nodes of discarded generations
 		p.Inner = 30
